@@ -184,6 +184,19 @@ Theorem C06_ring_wellformed : forall c ops, 0 < c -> legal_hist true (init c) op
 Proof. exact ring_wellformed_history. Qed.
 Print Assumptions C06_ring_wellformed.
 
+(** re-sizing (def_realloc_caches behind the cache.size and page-size
+    attribute hooks: cache_alloc of a new cache, cache_free of the old one):
+    both levels hand the same cached entries to the cleanup callback, all
+    unreferenced when no handle is outstanding, and start again from a fresh,
+    related, invariant state; so [C06_all_histories] / [C06_ring_refines_histories]
+    apply to every segment of a history with re-sizes *)
+Theorem C06_realloc : forall r s c, R r s -> Inv s -> 0 < c ->
+  snd (r_do_realloc r c) = snd (do_realloc s c) /\
+  R (fst (r_do_realloc r c)) (fst (do_realloc s c)) /\ Inv (fst (do_realloc s c)) /\
+  (forall v n, pend s = [] -> plain s = [] -> In (v, n) (snd (do_realloc s c)) -> n = 0).
+Proof. exact realloc_refines. Qed.
+Print Assumptions C06_realloc.
+
 (** what [linked] says pointwise: on the elements of a well-formed ring
     [next] and [prev] are inverse bijections, and following [next] from any
     element visits every element exactly once and comes back (one cycle) *)
